@@ -253,10 +253,11 @@ package otr3
 
 //@ func (*Conversation).receiveFragment
 //@   requires c != nil && keysNonNil(c)
-//@   modifies elems(beforeCtx.frag), c.version, c.ourCurrentKey, c.theirInstanceTag, msglog(c), c.injections.messages, elems(c.injections.messages)
+//@   modifies fragNumsOK(nil), elems(beforeCtx.frag), c.version, c.ourCurrentKey, c.theirInstanceTag, msglog(c), c.injections.messages, elems(c.injections.messages)
 //@   ensures [C14.recv.reject.noop,C06.frag.reject,C15.ignore.frag] result1 != nil ==> result0 == beforeCtx
 //@   ensures [C14.recv.table] result0 == beforeCtx || (result0.currentIndex == 1 && result0.currentLen >= 1) || (result0.currentIndex == beforeCtx.currentIndex + 1 && result0.currentLen == beforeCtx.currentLen && result0.currentIndex <= result0.currentLen && len(result0.frag) >= len(beforeCtx.frag)) || (result0.currentIndex == 0 && result0.currentLen == 0 && result0.frag === nil)
 //@   ensures [C14.recv.inv] beforeCtx.currentIndex <= beforeCtx.currentLen ==> result0.currentIndex <= result0.currentLen
+//@   ensures nonglobal(result0.frag)
 
 //@ func fragmentsFinished
 //@   pure
